@@ -142,37 +142,7 @@ func (ps *ProcessSet) run(ctx context.Context, sender tracing.ISenderHandle) {
 		case ch := <-ps.mch:
 			switch msg := ch.(type) {
 			case throwMessage:
-				sourceRef, ok := ps.messageFlows[msg.Id]
-				if ok {
-					startFlowNode, waitingProcess, found := ps.resolveWaitingProcessAndEvent(string(sourceRef.TargetRefField))
-					if found {
-						// flow nodes
-						subTracer := tracing.NewTracer(ctx)
-						tracing.NewRelay(ctx, subTracer, ps.tracer, func(trace tracing.ITrace) []tracing.ITrace {
-							return []tracing.ITrace{trace}
-						})
-
-						process, err := NewProcess(waitingProcess, ps.definitions, append(ps.sourceOptions, WithTracer(subTracer))...)
-						if err != nil {
-							ps.tracer.Send(ErrorTrace{Error: err})
-							continue
-						}
-
-						traces := process.Tracer().Subscribe()
-						ps.wg.Add(1)
-						go ps.tracerProcess(ctx, process, traces, &ps.wg)
-
-						err = process.StartWith(ctx, startFlowNode)
-						if err != nil {
-							ps.tracer.Send(ErrorTrace{Error: err})
-							continue
-						}
-					}
-					cancel, found := ps.triggerCatch(string(sourceRef.TargetRefField))
-					if found {
-						cancel()
-					}
-				}
+				ps.handleThrow(ctx, msg)
 			}
 		case <-ps.done:
 			ps.tracer.Send(CeaseProcessSetTrace{Definitions: ps.definitions})
@@ -180,6 +150,48 @@ func (ps *ProcessSet) run(ctx context.Context, sender tracing.ISenderHandle) {
 		case <-ctx.Done():
 			return
 		}
+	}
+}
+
+// handleThrow instantiates the waiting process (or wakes the catch event) that the
+// message flow of a thrown event points at. The watcher that posted the message
+// counted it on the set's wait group (see tracerProcess): the set is not complete
+// while a throw is still on its way, otherwise a thrower that ends right after its
+// throw lets WaitUntilComplete report completion before the target process exists.
+func (ps *ProcessSet) handleThrow(ctx context.Context, msg throwMessage) {
+	defer ps.wg.Done()
+
+	sourceRef, ok := ps.messageFlows[msg.Id]
+	if !ok {
+		return
+	}
+	startFlowNode, waitingProcess, found := ps.resolveWaitingProcessAndEvent(string(sourceRef.TargetRefField))
+	if found {
+		// flow nodes
+		subTracer := tracing.NewTracer(ctx)
+		tracing.NewRelay(ctx, subTracer, ps.tracer, func(trace tracing.ITrace) []tracing.ITrace {
+			return []tracing.ITrace{trace}
+		})
+
+		process, err := NewProcess(waitingProcess, ps.definitions, append(ps.sourceOptions, WithTracer(subTracer))...)
+		if err != nil {
+			ps.tracer.Send(ErrorTrace{Error: err})
+			return
+		}
+
+		traces := process.Tracer().Subscribe()
+		ps.wg.Add(1)
+		go ps.tracerProcess(ctx, process, traces, &ps.wg)
+
+		err = process.StartWith(ctx, startFlowNode)
+		if err != nil {
+			ps.tracer.Send(ErrorTrace{Error: err})
+			return
+		}
+	}
+	cancel, found := ps.triggerCatch(string(sourceRef.TargetRefField))
+	if found {
+		cancel()
 	}
 }
 
@@ -204,6 +216,8 @@ LOOP:
 			case *schema.ThrowEvent:
 				eventId, ok := evt.Id()
 				if ok {
+					// a throw on its way is work of the set (released by handleThrow)
+					wg.Add(1)
 					ps.mch <- throwMessage{Id: *eventId}
 				}
 			}
